@@ -139,6 +139,8 @@ pub struct ConvCfg {
     pub env: bool,
     pub typed: bool,
     pub version: bool,
+    /// prefer a command tree over positionals
+    pub force_cmds: bool,
 }
 
 impl Default for ConvCfg {
@@ -152,6 +154,7 @@ impl Default for ConvCfg {
             env: false,
             typed: true,
             version: false,
+            force_cmds: false,
         }
     }
 }
@@ -334,7 +337,11 @@ pub fn gen_pos_suffix(u: &mut Un, names: &mut Names, cfg: &ConvCfg) -> Vec<Node>
 pub fn gen_conv_level(u: &mut Un, names: &mut Names, cfg: &ConvCfg, depth: usize) -> Level {
     // tail: 0 nothing, 1 positionals, 2 commands
     let tail = if depth < cfg.max_depth {
-        u.weighted(&[1, 3, 4])
+        if cfg.force_cmds {
+            u.weighted(&[0, 1, 7])
+        } else {
+            u.weighted(&[1, 3, 4])
+        }
     } else {
         u.weighted(&[1, 3, 0])
     };
